@@ -7,6 +7,6 @@ java -version 2>&1 | head -1
 test -f /opt/veriftools/tla/tla2tools.jar
 /venv/bin/python -c "import bitarray, json; print('python ok')"
 mkdir -p evidence .work replays
-for m in spec/Trace.tla spec/Ref.tla spec/Mech.tla spec/MC_Core.tla spec/MC_Array.tla spec/MC_Print.tla spec/MC_Codec.tla spec/MC_Serial.tla spec/MC_BitSeq.tla spec/MC_Bitwise.tla spec/Gen_Core.tla spec/Gen_C01.tla spec/Gen_Codec.tla spec/Gen_Mini.tla spec/Gen_Format.tla spec/Gen_Struct.tla spec/MC_CoreVac.tla spec/MechSim.tla spec/ArraySim.tla; do
+for m in spec/Trace.tla spec/Ref.tla spec/Mech.tla spec/MC_Core.tla spec/MC_Array.tla spec/MC_Print.tla spec/MC_Codec.tla spec/MC_Serial.tla spec/MC_BitSeq.tla spec/MC_Bitwise.tla spec/Gen_Core.tla spec/Gen_C01.tla spec/Gen_Codec.tla spec/Gen_Mini.tla spec/Gen_Format.tla spec/Gen_Struct.tla spec/MC_CoreVac.tla spec/MechSim.tla spec/ArraySim.tla spec/PosMachine.tla; do
   (cd spec && java -cp /opt/veriftools/tla/tla2tools.jar:/opt/veriftools/tla/CommunityModules-deps.jar tla2sany.SANY "$(basename $m)" > /dev/null) && echo "parsed $m"
 done
